@@ -72,8 +72,13 @@ def molecule_pair(draw, max_atoms=40, kinds_big=("tree", "chain", "star", "cycli
             mpos[n2] = base + off
             mpos[n3] = base + off + d
             degenerate = True
+    far = draw(st.integers(0, 5)) == 0
+    if far:
+        # anywhere in the range a coordinate file can hold (-999.999 .. 9999.999 nm): box-scale offsets of both molecules
+        spos = spos + np.round(rng.uniform(-900, 9900, 3), 3)
+        epos = epos + np.round(rng.uniform(-900, 9900, 3), 3)
     return {"relation": relation, "start": gen.with_coords(start, spos), "end": gen.with_coords(end, epos),
-            "degenerate_mobile": degenerate}
+            "degenerate_mobile": degenerate, "far": far}
 
 
 @st.composite
